@@ -24,6 +24,43 @@ between, so the drawn range equals the counted range, and the counted total is t
 NOT_DECIDED = "that the count equals the number of valid sequences and that the candidate-to-sequence map is injective (C05/C13 territory)."
 
 
+def overwritten_flags(fn_node):
+    """(loop, assignment, name) for every variable that is initialised before a for-loop, assigned inside it to a non-constant
+    value that does not mention the variable itself, not followed by leaving the loop, and read after the loop: only the last
+    iteration's verdict survives (`ok = test(x)` where `ok = ok and test(x)` / `if not test(x): ok = False` was meant)"""
+    out = []
+    body_lists = []
+    for n in ast.walk(fn_node):
+        for fld in ("body", "orelse", "finalbody"):
+            b = getattr(n, fld, None)
+            if isinstance(b, list) and b and isinstance(b[0], ast.stmt):
+                body_lists.append(b)
+    for blk in body_lists:
+        for i, lp in enumerate(blk):
+            if not isinstance(lp, ast.For):
+                continue
+            # only verdict variables: initialised to a boolean constant before the loop
+            before = {t.id for st in blk[:i] for x in ast.walk(st) if isinstance(x, ast.Assign) and isinstance(x.value, ast.Constant) and isinstance(x.value.value, bool)
+                      for t in x.targets if isinstance(t, ast.Name)}
+            after_reads = {x.id for st in blk[i + 1:] for x in ast.walk(st) if isinstance(x, ast.Name) and isinstance(x.ctx, ast.Load)}
+
+            def scan(stmts):
+                for j, st in enumerate(stmts):
+                    if isinstance(st, ast.Assign) and len(st.targets) == 1 and isinstance(st.targets[0], ast.Name):
+                        v = st.targets[0].id
+                        mentions = any(isinstance(x, ast.Name) and x.id == v for x in ast.walk(st.value))
+                        leaves = j + 1 < len(stmts) and isinstance(stmts[j + 1], (ast.Break, ast.Return, ast.Raise))
+                        if v in before and v in after_reads and not isinstance(st.value, ast.Constant) and not mentions and not leaves:
+                            out.append((lp, st, v))
+                    elif isinstance(st, ast.If):
+                        scan(st.body)
+                        scan(st.orelse)
+                    elif isinstance(st, (ast.With, ast.Try)):
+                        scan(st.body)
+            scan(lp.body)
+    return out
+
+
 def check(ctx):
     R = "C06.bound"
     f = ctx.fn("random:RandomGen.__sample")
@@ -175,6 +212,21 @@ def check(ctx):
                     if len(rets) == 1 and len(hm.params) == 2:
                         ts = [x.test]
                         text = ast.unparse(rets[0].value).replace(hm.params[1], "N")
+        if not ts:
+            # by role: the two-way branch that separates per-combination from per-trial indexing; its test is judged after expanding an
+            # attribute of self through the assignment that defines it (a flag cached in __init__ cannot depend on this call's trial count)
+            role = [x for x in statements(h.node) if isinstance(x, ast.If) and x.orelse and
+                    any(k in ast.unparse(x.body) + ast.unparse(x.orelse) for k in ("combinations_shapes", "components[1]"))]
+            if len(role) == 1:
+                t_ = role[0].test
+                d_ = dotted(t_)
+                if d_ and d_.startswith("self.") and h.cls is not None:
+                    defs_ = [y for m_ in h.cls.methods.values() for y in statements(m_.node) if isinstance(y, ast.Assign) and dotted(y.targets[0]) == d_]
+                    if len(defs_) == 1:
+                        ts = [role[0].test]
+                        text = "%s  [= %s, set in %s]" % (d_, " ".join(ast.unparse(defs_[0].value).split()), "__init__")
+                if not ts:
+                    ts = [role[0].test]
         ctx.require(len(ts) == 1, "%s: the per-combination / per-trial test was not found" % h.fq)
         forms[ref] = text if text is not None else ast.unparse(ts[0]).replace(var, "N")
         want_t = "N == len(self._crossing_instances) and self._crossing_is_unweighted"
@@ -228,6 +280,23 @@ def check(ctx):
             ok_general = True
     ctx.check(ok_general, R, scp, "general case sums over arrangements",
               "otherwise the count is the sum over all arrangements of the product of their completions", "the general case of sum_combination_products changed")
+
+    # ---- a verdict computed over several factors / constraints must not be overwritten per iteration
+    R = "C06.filter"
+    n_fn = 0
+    for f_ in ctx.repo.all_functions:
+        if f_.module.short != "random" or isinstance(f_.node, ast.Lambda):
+            continue
+        n_fn += 1
+        hits = overwritten_flags(f_.node)
+        for lp_, st_, v_ in hits:
+            ctx.bad(R, f_, "%s = %s" % (v_, ast.unparse(st_.value)[:60]),
+                    "%s assigns `%s = %s` inside `for %s in %s` and reads `%s` after the loop: each iteration overwrites the verdict of the previous ones, so only the last "
+                    "element decides (a candidate / source combination rejected by an earlier element is kept)" % (
+                        f_.qual, v_, ast.unparse(st_.value)[:80], ast.unparse(lp_.target), ast.unparse(lp_.iter)[:60], v_), st_)
+        if not hits:
+            ctx.ok(R, f_, "%s: no overwritten loop verdict" % f_.qual, trivial=True)
+    ctx.require(n_fn >= 30, "only %d functions of the combinatoric sampler were scanned" % n_fn)
 
     mod = sys.modules[__name__]
     control(ctx, mod, "closed form whenever the copies are uniform",
